@@ -50,7 +50,22 @@ func (c *Ctx) initial(name string) Term {
 	if !ok {
 		panic("unregistered component " + name)
 	}
-	return c.declConst(name+"@0", s)
+	t := c.declConst(name+"@0", s)
+	c.byteRangeAxiom(name, t)
+	return t
+}
+
+// byteRangeAxiom: every element of a byte memory is a byte. Stated once per unconstrained version (the entry
+// state and havocked versions; versions built by stores inherit it from the stored, typed values).
+func (c *Ctx) byteRangeAxiom(name string, t Term) {
+	if name != "E:uint8" || c.byteAx[t.S] {
+		return
+	}
+	if c.byteAx == nil {
+		c.byteAx = map[string]bool{}
+	}
+	c.byteAx[t.S] = true
+	c.assert(Term{fmt.Sprintf("(forall ((|q!a| Int) (|q!i| Int)) (! (and (<= 0 (select (select %s |q!a|) |q!i|)) (<= (select (select %s |q!a|) |q!i|) 255)) :pattern ((select (select %s |q!a|) |q!i|))))", t.S, t.S, t.S), SBool})
 }
 
 func (c *Ctx) get(st *State, name string) Term {
@@ -97,6 +112,7 @@ func (c *Ctx) havoc(st *State, name string) Term {
 	s := c.compSort[name]
 	t := c.fresh(name, s)
 	st.comps[name] = t
+	c.byteRangeAxiom(name, t)
 	return t
 }
 
